@@ -1833,10 +1833,22 @@ def c05(tier, sc):
                           "fp": ob["fp"], "events": ob["events"], "panic": ob["panic"]})
             ncalls += 1
         trace.append({"ev": "tables", "digest": r["tables"], "case": ci})
+    # the assumption of Api.tla (calls share no variable) audited on the source: package-level variables that
+    # a function other than init() may modify.  Evidence, and a reason to explore deeper -- never a verdict.
+    rc, o = run([vh, "audit", vlib.REPO], timeout=120)
+    if rc != 0:
+        raise ToolFailure("audit failed: " + o[-1000:])
+    audit = json.loads(o.strip().split("\n")[-1])
+    shared = sorted(set(h["var"] for h in audit["possibly_modified"]))
+    rep.part("audit", package_level_vars=audit["package_level_vars"], possibly_modified_outside_init=audit["possibly_modified"][:20])
+    deep = big or bool(shared)
+    if shared:
+        rep.notes.append("shared state candidates (package-level variables modified outside init): %s -- stress and cold-start runs "
+                         "deepened" % ", ".join(shared))
     # free-running concurrency under the race detector
     sfile = sc.path("stress-out.ndjson")
-    ng, iters = (32, 600) if big else (16, 200)
-    for rnd in range(3 if big else 2):
+    ng, iters = (32, 600) if deep else (16, 200)
+    for rnd in range(3 if deep else 2):
         rc, o = run([vhr, "api-stress", pfile, sfile, str(ng), str(iters), str(vlib.seed() * 10 + rnd)], timeout=3000,
                     env={"GORACE": "halt_on_error=0 exitcode=66", "GOMAXPROCS": str([16, 4, 2][rnd % 3])})
         if "DATA RACE" in o:
@@ -1855,7 +1867,7 @@ def c05(tier, sc):
             ncalls += 1
         trace.append({"ev": "tables", "digest": r["tables"], "case": -1 - rnd})
     # a cold process whose very first calls overlap (lazily built structures): several fresh processes, plain build
-    for rnd in range(6 if big else 3):
+    for rnd in range(8 if deep else 3):
         rc, o = run([vh, "api-stress", pfile, sfile, str(ng), "20", str(vlib.seed() * 100 + rnd)], timeout=600)
         if rc != 0 and ("fatal error" in o or "panic:" in o or "SIGSEGV" in o):
             crashes.append(("cold start, overlapping first calls", o[-4000:]))
